@@ -276,6 +276,14 @@ class Spec:
             t = v.t if isinstance(v.s, S.SetS) else v.s.dom(v)
             return S.V(S.INT, _cu("Card", so, S.INT)(t))
 
+        def StartsWith(s_, p_):
+            s_, p_ = S.lift(s_), S.lift(p_)
+            return S.V(S.BOOL, z3.PrefixOf(p_.t, s_.t))
+
+        def EndsWith(s_, p_):
+            s_, p_ = S.lift(s_), S.lift(p_)
+            return S.V(S.BOOL, z3.SuffixOf(p_.t, s_.t))
+
         def exc_attr(name, fn):
             """The attribute `name` of a caught exception object reads as fn(ctx) (e.g. a ghost holding the last errno)."""
             sp.exc_attrs[name] = fn
@@ -364,7 +372,7 @@ class Spec:
 
         ns = dict(cls=cls, ghost=ghost, assumed=assumed, verified=verified, target=target, loop=loop,
                   fold_sum=fold_sum, fold_all=fold_all, fold_cat=fold_cat, use_rev=use_rev, fold_unit=fold_unit, rev_hints=rev_hints, attr=attr, seq_lemma=seq_lemma, lemma=lemma,
-                  exceptions=exceptions, attr_sort=attr_sort, instance_of=instance_of, exc_attr=exc_attr, Card=Card, always_truthy=always_truthy, const=const, assume_note=assume_note,
+                  exceptions=exceptions, attr_sort=attr_sort, instance_of=instance_of, exc_attr=exc_attr, StartsWith=StartsWith, EndsWith=EndsWith, Card=Card, always_truthy=always_truthy, const=const, assume_note=assume_note,
                   undecided=undecided, pure=pure, ufunc=ufunc, forall=forall, exists=exists,
                   extra_check=extra_check, census=census, include=include, rx=re.compile, SPEC=sp)
         for k in ("INT BOOL STR BYTES NONE ANY Seq Tup Opt SetS MapS Opaque Enum Obj V If And Or Not Implies "
